@@ -108,6 +108,11 @@ func New(property, tier, level string) *Report {
 		Exhaustive: true,
 		MaxViol:    25,
 	}
+	if s := os.Getenv("VERIF_MAXVIOL"); s != "" {
+		if v, err := strconv.Atoi(s); err == nil {
+			r.MaxViol = v
+		}
+	}
 	for _, k := range LoadKnown().Known {
 		if k.Property == property {
 			r.known = append(r.known, k)
